@@ -156,8 +156,10 @@ def ordStep (st : OrdSt) (op : Op) : OrdSt :=
     { st with renamed := true,
               ok := st.ok && st.dirty.isEmpty && st.unsyncedEntries.isEmpty && st.created.length ≥ 2 }
   | .remove p =>
-    -- removing anything older (i.e. anything once the backup is renamed) needs the rename to be durable
-    if st.renamed then { st with ok := st.ok && st.renameDurable } else st
+    -- removing anything older (i.e. anything once the backup is renamed) needs the rename to be durable;
+    -- before the rename only abandoned temporaries (dot-prefixed entries of a group) may go
+    if st.renamed then { st with ok := st.ok && st.renameDurable }
+    else if inTemp p then st else { st with ok := false }
   | .exit status => if status = 0 then { st with ok := st.ok && st.renamed && st.renameDurable } else st
   | _ => st
 
